@@ -206,15 +206,23 @@ def _try(fn, *a):
         return f"refused:{type(e).__name__}"
 
 
-def leak_differential(w, kind, name, mname, position=0):
+def leak_differential(w, kind, name, mname, position=0, fresh=None):
     """
     Returns (symptom or None, how the mutation ended).
-    kind: "accessor" | "input".
+    kind: "accessor" | "input".  `fresh()` builds an independent copy of the state by replaying its
+    history (class-level library state is reset before each copy is built, and each copy is fully
+    evaluated before the next one exists, so a leak through a class-level object is seen too).
     """
-    w1, w2 = copy.deepcopy(w), copy.deepcopy(w)
+    from ..structure import new_item
     outcome = None
-    extra1 = extra2 = ()
-    for ww, mutate in ((w1, True), (w2, False)):
+    results = []
+    for mutate in (True, False):
+        if fresh is not None:
+            new_item()
+            ww = fresh()
+        else:
+            ww = copy.deepcopy(w)
+        extra = ()
         Vertex.NEIGHBOR_CACHING = ww.flag
         probe = Vertex(attributes={"i": 77})          # the foreign object pushed into containers
         if kind == "accessor":
@@ -232,14 +240,13 @@ def leak_differential(w, kind, name, mname, position=0):
                 return None, "builder-raised"
             if mutate:
                 outcome = _try(input_mutations(conts[position], probe)[mname], conts[position])
-                extra1 = new
-            else:
-                extra2 = new
-    s1, s2 = full_state(w1, extra1), full_state(w2, extra2)
+            extra = new
+        results.append((full_state(ww, extra), answers(ww)))
     Vertex.NEIGHBOR_CACHING = w.flag
+    (s1, a1), (s2, a2) = results
     if s1 != s2:
         return "state-differs-after-mutating-the-container", outcome
-    if answers(w1) != answers(w2):
+    if a1 != a2:
         return "later-query-answers-differ", outcome
     return None, outcome
 
@@ -327,20 +334,21 @@ class Sys:
         return []
 
     def state_check(self, pre, op, post, obs):
-        return leak_check(post)
+        hist = self.current_history
+        return leak_check(post, fresh=lambda: engine_h.build(self, hist))
 
     def init_check(self, w):
-        return leak_check(w)
+        return leak_check(w, fresh=lambda: engine_h.build(self, ()))
 
 
 LEAK_COUNTS = {"n": 0, "applied": 0}
 
 
-def leak_check(w):
+def leak_check(w, fresh=None):
     out = []
     memo = "warm" if any(vars(v).get("_Vertex__qa_nb_cache") for v in w.v) else "cold"
     for kind, name, mname, pos in leak_menu(w):
-        bad, outcome = leak_differential(w, kind, name, mname, pos)
+        bad, outcome = leak_differential(w, kind, name, mname, pos, fresh=fresh)
         LEAK_COUNTS["n"] += 1
         LEAK_COUNTS["applied"] += outcome == "applied"
         if bad:
@@ -356,7 +364,7 @@ def replay(rec, verbose=False):
     for op in hist:
         s.apply(w, op)
     kind, name, mname, pos = rec["detail"]["leak"]
-    bad, outcome = leak_differential(w, kind, name, mname, pos)
+    bad, outcome = leak_differential(w, kind, name, mname, pos, fresh=lambda: engine_h.build(s, hist))
     if verbose:
         print("  history:", hist, " caching:", w.flag)
         print(f"  leak attempt: {kind} {name} (container #{pos}), mutation {mname} -> {outcome}")
